@@ -71,8 +71,8 @@ theorem execute_env (s : St) (j : Nat) (due : Int) : (execute setT s j due).env 
   unfold execute
   simp only []
   generalize hs0 : (if (s.job j).execFail.contains (s.job j).execs = true then
-      (((s.emit (Ev.exec j s.now due)).setJob j { s.job j with execs := (s.job j).execs + 1 })).emit (Ev.exc "CallableError")
-    else ((s.emit (Ev.exec j s.now due)).setJob j { s.job j with execs := (s.job j).execs + 1 })) = s0
+      (((s.emit (Ev.exec j s.now due)).setJob j { s.job j with execs := (s.job j).execs + 1, lastRun := some s.now })).emit (Ev.exc "CallableError")
+    else ((s.emit (Ev.exec j s.now due)).setJob j { s.job j with execs := (s.job j).execs + 1, lastRun := some s.now })) = s0
   have h0 : s0.env = s.env := by subst hs0; split <;> rfl
   have h1 := updateNext_env setT hT s0 j
   split
@@ -228,10 +228,10 @@ theorem execute_tr (s : St) (j : Nat) (due : Int) (hne : i ≠ j) (hI : Inv s) (
   unfold execute
   simp only []
   generalize hs0 : (if (s.job j).execFail.contains (s.job j).execs = true then
-      (((s.emit (Ev.exec j s.now due)).setJob j { s.job j with execs := (s.job j).execs + 1 })).emit (Ev.exc "CallableError")
-    else ((s.emit (Ev.exec j s.now due)).setJob j { s.job j with execs := (s.job j).execs + 1 })) = s0
-  have hb : JobOK ({ s.job j with execs := (s.job j).execs + 1 } : Job) := hI.st j
-  have hA : Inv ((s.emit (Ev.exec j s.now due)).setJob j { s.job j with execs := (s.job j).execs + 1 }) :=
+      (((s.emit (Ev.exec j s.now due)).setJob j { s.job j with execs := (s.job j).execs + 1, lastRun := some s.now })).emit (Ev.exc "CallableError")
+    else ((s.emit (Ev.exec j s.now due)).setJob j { s.job j with execs := (s.job j).execs + 1, lastRun := some s.now })) = s0
+  have hb : JobOK ({ s.job j with execs := (s.job j).execs + 1, lastRun := some s.now } : Job) := hI.st j
+  have hA : Inv ((s.emit (Ev.exec j s.now due)).setJob j { s.job j with execs := (s.job j).execs + 1, lastRun := some s.now }) :=
     (InvEx_setJob _ ((Inv_emit _ hI (by simpa [evOK] using hdue)).toEx j) hb).toInv hj
   have h0 : Tr i r0 r1 s s0 ∧ Inv s0 ∧ s0.now = N ∧ s0.env = E := by
     subst hs0
@@ -260,10 +260,10 @@ end track
 /-- the record of a recurring job after an execution at instant `now` whose reschedule gave `n` -/
 def nextRecord (r0 : Job) (p : Producer) (now n : Int) : Job :=
   { r0 with execs := r0.execs + 1, kind := .recurring (p.anchorAt now), calls := r0.calls + 1,
-            nextRun := some n, status := .running }
+            nextRun := some n, status := .running, lastRun := some now }
 
 theorem preExec_job (s : St) (j : Nat) (due : Int) :
-    (preExec s j due).jobs j = { s.jobs j with execs := (s.jobs j).execs + 1 } ∧ (preExec s j due).now = s.now ∧
+    (preExec s j due).jobs j = { s.jobs j with execs := (s.jobs j).execs + 1, lastRun := some s.now } ∧ (preExec s j due).now = s.now ∧
     (preExec s j due).env = s.env := by
   unfold preExec
   simp only []
